@@ -441,6 +441,75 @@ impl<'de> Deserialize<'de> for E {
     }
 }
 
+// ---------------------------------------------------------------- EW (widecell: a ledgered cell of 96 bytes)
+//
+// `cell` with 80 bytes of padding that repeat the value: non-`Copy`, drop glue, the same ledger and fault countdowns (every
+// trait goes through `E`), but on the far side of any size threshold; a cell assembled from two cells reports `TORN`.
+
+pub struct EW(E, [u64; 10]);
+
+impl Elem for EW {
+    fn mk(v: u32) -> Self {
+        EW(E::mk(v), [v as u64; 10])
+    }
+    fn val(&self) -> u32 {
+        let v = self.0.val();
+        if self.1.iter().all(|&p| p == v as u64) {
+            v
+        } else {
+            TORN
+        }
+    }
+    fn bump(&mut self, by: u32) {
+        self.0.bump(by);
+        self.1 = [self.0.val() as u64; 10];
+    }
+    fn ledger_tokens() -> String {
+        E::ledger_tokens()
+    }
+}
+impl Clone for EW {
+    fn clone(&self) -> Self {
+        EW(self.0.clone(), self.1)
+    }
+}
+impl Default for EW {
+    fn default() -> Self {
+        EW(E::default(), [0; 10])
+    }
+}
+impl PartialEq for EW {
+    fn eq(&self, o: &Self) -> bool {
+        self.val() == o.val()
+    }
+}
+impl Eq for EW {}
+impl PartialOrd for EW {
+    fn partial_cmp(&self, o: &Self) -> Option<Ordering> {
+        Some(self.cmp(o))
+    }
+}
+impl Ord for EW {
+    fn cmp(&self, o: &Self) -> Ordering {
+        self.val().cmp(&o.val())
+    }
+}
+impl Hash for EW {
+    fn hash<H: Hasher>(&self, h: &mut H) {
+        self.val().hash(h)
+    }
+}
+impl Serialize for EW {
+    fn serialize<S: Serializer>(&self, s: S) -> Result<S::Ok, S::Error> {
+        s.serialize_u32(self.val())
+    }
+}
+impl<'de> Deserialize<'de> for EW {
+    fn deserialize<D: Deserializer<'de>>(d: D) -> Result<Self, D::Error> {
+        u32::deserialize(d).map(EW::mk)
+    }
+}
+
 // ---------------------------------------------------------------- () (zero-sized, `Copy`, no drop glue)
 //
 // `vec![(); n]` is O(1) for every `n` (std specialises it), so `TooDee::init(c, r, ())` can build arrays with up to
